@@ -3,7 +3,6 @@
 package main
 
 import (
-	"bytes"
 	"flag"
 	"fmt"
 	"math/rand"
@@ -66,9 +65,12 @@ type run struct {
 	healed      bool
 	live        []hotstuff.ID // members of the synchronous quorum after heal
 	script      *[]int
-	cmdLog      [][2]int // client commands issued so far
-	coop        bool     // the Byzantine replicas mostly play along (their blocks get committed)
+	cmdLog      [][2]int    // client commands issued so far
+	isoVictim   hotstuff.ID // replica whose traffic (both directions) is currently held back; 0 = nobody
+	isoUntil    int
+	coop        bool // the Byzantine replicas mostly play along (their blocks get committed)
 	coopDone    map[int]bool
+	bytesID     map[int]string // block id -> bytes that a vote signs
 	fixedLeader int
 	lmode       string
 }
@@ -216,7 +218,12 @@ func (r *run) classifySigned(n *hx.Node, from int) []any {
 			// a block's bytes?
 			found := false
 			for id, b := range r.blocks {
-				if bytes.Equal(b.ToBytes(), s.Msg) {
+				if _, ok := r.bytesID[id]; !ok {
+					r.bytesID[id] = string(b.ToBytes())
+				}
+			}
+			for id, bs := range r.bytesID {
+				if bs == string(s.Msg) {
 					out = append(out, []any{"vote", id})
 					found = true
 					break
@@ -313,7 +320,7 @@ func (r *run) topUp() {
 		// the client's request reaches most replicas (where a client then waits for the outcome); a replica that
 		// misses it learns the command only from a committed block
 		for _, m := range r.honest() {
-			if r.rng.Intn(5) > 0 {
+			if k == 0 || r.rng.Intn(5) > 0 { // (the first one reaches everybody: a leader is never starved)
 				m.Submit(&clientpb.Command{ClientID: uint32(cl), SequenceNumber: uint64(seq), Data: []byte{byte(cl), byte(seq), byte(seq >> 8)}})
 			}
 		}
@@ -332,6 +339,17 @@ func (r *run) byzIDs() []hotstuff.ID {
 }
 
 func (r *run) node(id hotstuff.ID) *hx.Node { return r.nodes[id-1] }
+
+// maxConnectedView: the highest view among the honest replicas that are not cut off right now
+func (r *run) maxConnectedView() int {
+	m := 0
+	for _, n := range r.honest() {
+		if n.ID != r.isoVictim {
+			m = max(m, int(n.VS.View()))
+		}
+	}
+	return m
+}
 
 func (r *run) maxHonestView() int {
 	m := 0
@@ -683,8 +701,8 @@ func protoCmd(args []string) error {
 		f := hotstuff.NumFaulty(n)
 		nb := rng.Intn(f + 1)
 		ff := *faultFree > 0 && ri%*faultFree == 0
-		if ff {
-			nb = 0
+		if ff || ri%3 == 2 {
+			nb = 0 // fault-free runs and the scenario library (which cuts a replica off itself) have no faulty replica
 		}
 		byz := map[hotstuff.ID]bool{}
 		for len(byz) < nb {
@@ -715,7 +733,7 @@ func protoCmd(args []string) error {
 		r := &run{o: o, rng: rng, n: n, q: hotstuff.QuorumSize(n), nodes: nodes, byz: byz, lr: scriptLR{n: n, script: &script}, script: &script, fixedLeader: fixedLeader, lmode: lmode,
 			agg: rs == "fasthotstuff", blockID: map[hotstuff.Hash]int{hotstuff.GetGenesis().Hash(): 0},
 			blocks: map[int]*hotstuff.Block{0: hotstuff.GetGenesis()}, nextCmd: map[int]int{}, fetchOK: 60 + rng.Intn(41),
-			coop: rng.Intn(2) == 0, coopDone: map[int]bool{}}
+			coop: rng.Intn(2) == 0, coopDone: map[int]bool{}, bytesID: map[int]string{}}
 		if *noByz {
 			// crash/silent faults instead of Byzantine ones
 		}
@@ -757,12 +775,64 @@ func protoCmd(args []string) error {
 		pDup := []int{0, 10, 30}[rng.Intn(3)]
 		pTimeout := []int{3, 10, 30, 100}[rng.Intn(4)]
 		pByz := []int{10, 40, 100}[rng.Intn(3)]
+		pNewest := []int{0, 10, 50}[rng.Intn(3)]
 		if len(byz) == 0 {
 			pByz = 0
 		}
 		// ---- asynchronous / adversarial phase
+		// isolation plan: for runs of 2-5 consecutive views one honest replica (often the leader of one of those views) is cut off
+		isoPlan := make([]int, 80)
+		scenario := ""
+		defer func(sc *string) { _ = *sc }(&scenario)
+		if ri%6 == 5 && !ff && lmode != "fixed" {
+			// scenario library: "late leader" -- one replica leads a stretch of views and is cut off in every other one of
+			// them: the others enter the next view on a timeout certificate and only then see its proposal, which carries a
+			// certificate older than their view
+			scenario = "late-leader"
+			pLose, pDup, pTimeout, pNewest = 0, 0, 3, 0
+			hon := r.honest()
+			l := int(hon[rng.Intn(len(hon))].ID)
+			a := 2 + rng.Intn(4)
+			for v := a; v < a+7 && v < len(script); v++ {
+				script[v-1] = l
+				if (v-a)%2 == 0 {
+					isoPlan[v] = l
+				}
+			}
+		} else if ri%3 == 2 && !ff {
+			// scenario library: "laggard" -- a calm run in which the leader-to-be of view w+1 is cut off from view w on for a few
+			// views and then reconnected, seeing the newest traffic first
+			scenario = "laggard"
+			pLose, pDup, pTimeout, pNewest = 0, 0, 3, 50
+			w := 1 + rng.Intn(8)
+			if l := r.lr.GetLeader(hotstuff.View(w + 1)); l != 0 && !r.byz[l] {
+				for v := w; v < w+3+rng.Intn(3); v++ {
+					isoPlan[v] = int(l)
+				}
+			}
+		} else if isoP := []int{0, 15, 35}[rng.Intn(3)]; isoP > 0 {
+			for v := 1; v < len(isoPlan); v++ {
+				if rng.Intn(100) < isoP {
+					hon := r.honest()
+					victim := int(hon[rng.Intn(len(hon))].ID)
+					if l := r.lr.GetLeader(hotstuff.View(v + rng.Intn(3))); rng.Intn(2) == 0 && l != 0 && !r.byz[l] {
+						victim = int(l)
+					}
+					for k := 0; k < 2+rng.Intn(4) && v < len(isoPlan); k++ {
+						isoPlan[v] = victim
+						v++
+					}
+				}
+			}
+		}
 		for s := 0; s < *maxSteps && !ff; s++ {
 			r.topUp()
+			// partitions, per view as in Twins: while the most advanced honest replica is in view v, the replica isoPlan[v]
+			// (if any) is cut off from everybody: its traffic is held back (delayed, not lost) until the plan lets it back in
+			r.isoVictim = 0
+			if ep := r.maxConnectedView(); ep < len(isoPlan) {
+				r.isoVictim = hotstuff.ID(isoPlan[ep])
+			}
 			if !silent {
 				r.coopMaybe()
 			}
@@ -783,9 +853,24 @@ func protoCmd(args []string) error {
 			case c < pLose+pDup+pTimeout+pByz && !silent:
 				r.adversary()
 			default: // deliver (biased towards old messages; reordering is free)
-				i := 0
-				if rng.Intn(4) == 0 {
-					i = rng.Intn(len(r.net))
+				var eligible []int
+				for i, e := range r.net {
+					if r.isoVictim == 0 || (e.from != r.isoVictim && e.to != r.isoVictim) {
+						eligible = append(eligible, i)
+					}
+				}
+				if len(eligible) == 0 {
+					hon := r.honest()
+					x := hon[rng.Intn(len(hon))]
+					r.step("timeout", x, obj{"type": "localtimeout", "view": int(x.VS.View())}, func() { x.FireTimeout() })
+					break
+				}
+				i := eligible[0]
+				switch {
+				case rng.Intn(100) < pNewest: // newest first (a replica that was cut off may see the latest certificate first)
+					i = eligible[len(eligible)-1]
+				case rng.Intn(4) == 0:
+					i = eligible[rng.Intn(len(eligible))]
 				}
 				r.deliverIdx(i)
 			}
